@@ -13,7 +13,7 @@ func init() {
 		ID:    "C06",
 		Title: "Background merges and persists never change logical content",
 		Rules: []string{"C06.R1", "C06.R2", "C06.R3", "C06.R4", "C06.R5", "C06.R6", "C01.R2", "C02.R5", "C04.R2"},
-		Decides: "the data-flow obligations of the three introductions: every introduction carries the deleted sets of the root it obtains itself (the CURRENT root), including the persist swap (C01.R2 + C06.R1); in the merge introduction every current root element is run through the per-segment processing together with one fresh accumulator bitmap, that processing adds to the accumulator exactly the new doc numbers oldNewDocNums[segment][d] for d ranging over the deletions of the CURRENT element minus (when present) the deletions known at merge time, segments that vanished from the root meanwhile have all their live docs mapped and added, the accumulator becomes the merged segment's deleted set, and the merged segment is listed only when it has more docs than deletions (otherwise 'skipped' is reported); at every merge call site the list of segments and the list of drops are appended to in the same block from the same element; every path of the merge introduction answers the requester exactly once and the requesters' receives are guarded by a successful hand-over. the equivalent snapshot persisted after an in-memory merge carries no element or deleted set of a later root (C02.R5, C01.R2).",
+		Decides: "the data-flow obligations of the three introductions: every introduction carries the deleted sets of the root it obtains itself (the CURRENT root), including the persist swap (C01.R2 + C06.R1); in the merge introduction every current root element is run through the per-segment processing together with one fresh accumulator bitmap, that processing adds to the accumulator exactly the new doc numbers oldNewDocNums[segment][d] for d ranging over the deletions of the CURRENT element minus (when present) the deletions known at merge time, segments that vanished from the root meanwhile have all their live docs mapped and added, the accumulator becomes the merged segment's deleted set, and the merged segment is listed only when it has more docs than deletions (otherwise 'skipped' is reported); at every merge call site the list of segments and the list of drops are appended to in the same block from the same element; every path of the merge introduction answers the requester exactly once and the requesters' receives are guarded by a successful hand-over. the equivalent snapshot persisted after an in-memory merge carries no element or deleted set of a later root (C02.R5, C01.R2). doc-number ranges are bounded by the segment's full Count().",
 		NotCovered: "that the doc-number maps produced by the segment library are right; which segments the planner picks (C19).",
 	})
 	registerRule(&RuleInfo{ID: "C06.R1", Title: "introductions work on the root they obtain themselves", Floor: 3, Run: ruleC06R1,
